@@ -318,5 +318,19 @@ pub fn run_check(tier: Tier, _replay: Option<String>) -> i32 {
         }
         report.merge(p);
     });
+    // the update itself, directly: momenta on the sphere incl. (anti)parallel to the gradient and
+    // tiny rotations of them x update arguments from 1e-3 to saturation, dimensions 2..=17
+    {
+        let mut p = Partial::new();
+        for n in [2usize, 3, 4, 7, 16, 17] {
+            for variant in 0..3 {
+                let g: Vec<f64> = (0..n).map(|i| ((i as f64 + 1.0) * (0.7 + 0.9 * variant as f64)).sin() * (1.0 + variant as f64 * 40.0) + 0.1).collect();
+                let mut math = nuts_rs::CpuMath::new(Dens::new(Target::std_normal(n)));
+                crate::c17::esh_sphere_probes(&mut math, n, &g, &mut p, "C18/esh-momentum-update/");
+            }
+        }
+        p.class("esh-direct-probes".to_string());
+        report.merge(p);
+    }
     report.finish()
 }
